@@ -425,7 +425,7 @@ func c19Controller(c *Ctx) {
 				hes := WholeFn(h).EstablishingEdges(Cmp{token.EQL, Same(prm), ConstInt(notCtl)})
 				good := len(hes) > 0
 				for _, he := range hes {
-					if it, _ := WholeFn(h).From(Pt{he.To, 0}).MustPrecede(p.CallTo("clusterAdmin.refreshController"), IsReturn()); !it.IsZero() {
+					if it, _ := WholeFn(h).From(Pt{he.To, 0}).MustPrecede(p.CallTo("clusterAdmin.refreshController", "Client.RefreshController"), IsReturn()); !it.IsZero() {
 						good = false
 					}
 				}
@@ -440,7 +440,7 @@ func c19Controller(c *Ctx) {
 		}
 		for _, st := range starts {
 			sub := reg.From(st.pt)
-			it, path := sub.MustPrecede(p.CallTo("clusterAdmin.refreshController"), IsReturn())
+			it, path := sub.MustPrecede(p.CallTo("clusterAdmin.refreshController", "Client.RefreshController"), IsReturn())
 			if st.done {
 				it, path = Item{}, nil
 			}
